@@ -60,6 +60,9 @@ type Features struct {
 	OnlyIP      bool // every rule peer is an ipBlock (workloads talk to addresses only)
 	Iso         bool // an extra namespace "iso" whose only workload is cut off from every real peer but not from hypothetical ones
 	HostAddrs   bool // ipBlocks may be single addresses: the nodes' (the classic "let the kubelet probe"), a pod's, a stranger's
+	// selectors with expressions written so far in this world: a later rule may say the same thing in another spelling
+	// (expressions or values in another order), as happens when policies are written by different people
+	pool *[]metav1.LabelSelector
 }
 
 var allKinds = []string{"Deployment", "ReplicaSet", "StatefulSet", "DaemonSet", "Job", "CronJob", "ReplicationController", "Pod"}
@@ -205,9 +208,15 @@ func randSelector(r *rng, f *Features, allowEmpty bool) metav1.LabelSelector {
 		}
 		return s
 	}
+	if f.pool != nil && len(*f.pool) > 0 && r.chance(1, 3) {
+		return respellSelector(pick(r, *f.pool))
+	}
 	n := r.between(1, 2)
 	for i := 0; i < n; i++ {
 		e := metav1.LabelSelectorRequirement{Key: pick(r, f.keys())}
+		if i == 1 && r.chance(1, 2) {
+			e.Key = s.MatchExpressions[0].Key // two requirements on one key
+		}
 		switch r.intn(4) {
 		case 0:
 			e.Operator = metav1.LabelSelectorOpIn
@@ -228,7 +237,56 @@ func randSelector(r *rng, f *Features, allowEmpty bool) metav1.LabelSelector {
 	if r.chance(1, 4) {
 		s.MatchLabels = map[string]string{pick(r, f.keys()): pick(r, f.vals())}
 	}
+	if f.pool != nil {
+		*f.pool = append(*f.pool, s)
+		if len(s.MatchExpressions) == 2 && s.MatchExpressions[0].Key == s.MatchExpressions[1].Key {
+			*f.pool = append(*f.pool, s, s, s) // the order of these two is the least canonical thing about a selector
+		}
+	}
 	return s
+}
+
+// respellSelector returns the same selector written differently: the expressions and the values of each in reverse order.
+func respellSelector(s metav1.LabelSelector) metav1.LabelSelector {
+	out := metav1.LabelSelector{}
+	if s.MatchLabels != nil {
+		out.MatchLabels = map[string]string{}
+		for k, v := range s.MatchLabels {
+			out.MatchLabels[k] = v
+		}
+	}
+	for i := len(s.MatchExpressions) - 1; i >= 0; i-- {
+		e := s.MatchExpressions[i]
+		c := metav1.LabelSelectorRequirement{Key: e.Key, Operator: e.Operator}
+		for j := len(e.Values) - 1; j >= 0; j-- {
+			c.Values = append(c.Values, e.Values[j])
+		}
+		out.MatchExpressions = append(out.MatchExpressions, c)
+	}
+	return out
+}
+
+func respellPeers(r *rng, peers []netv1.NetworkPolicyPeer) []netv1.NetworkPolicyPeer {
+	var out []netv1.NetworkPolicyPeer
+	one := func(s *metav1.LabelSelector) *metav1.LabelSelector {
+		if s == nil {
+			return nil
+		}
+		c := respellSelector(*s)
+		if len(c.MatchLabels) == 1 && r.chance(1, 2) {
+			// key: value is the same as key In [value]
+			for k, v := range c.MatchLabels {
+				c.MatchExpressions = append(c.MatchExpressions, metav1.LabelSelectorRequirement{Key: k, Operator: metav1.LabelSelectorOpIn, Values: []string{v}})
+			}
+			c.MatchLabels = nil
+		}
+		return &c
+	}
+	for _, p := range peers {
+		q := netv1.NetworkPolicyPeer{IPBlock: p.IPBlock, NamespaceSelector: one(p.NamespaceSelector), PodSelector: one(p.PodSelector)}
+		out = append(out, q)
+	}
+	return out
 }
 
 // randNsSelector: a namespace selector; a quarter of them name a namespace through the automatic
@@ -466,6 +524,17 @@ func randNetpol(r *rng, f *Features, ns, name string) Doc {
 		peers, hasIP := randNPPeers(r, f)
 		np.Spec.Egress = append(np.Spec.Egress, netv1.NetworkPolicyEgressRule{To: peers, Ports: randNPPorts(r, f, hasIP || len(peers) == 0)})
 	}
+	if f.Exprs && r.chance(1, 4) {
+		// a twin rule: the peers of an existing rule said again in another spelling, with ports of its own
+		// (rules that were merged by hand from two sources; the analysis must treat both spellings as one peer)
+		if len(np.Spec.Egress) > 0 && r.chance(1, 2) {
+			src := pick(r, np.Spec.Egress)
+			np.Spec.Egress = append(np.Spec.Egress, netv1.NetworkPolicyEgressRule{To: respellPeers(r, src.To), Ports: randNPPorts(r, f, false)})
+		} else if len(np.Spec.Ingress) > 0 {
+			src := pick(r, np.Spec.Ingress)
+			np.Spec.Ingress = append(np.Spec.Ingress, netv1.NetworkPolicyIngressRule{From: respellPeers(r, src.From), Ports: randNPPorts(r, f, false)})
+		}
+	}
 	switch r.intn(4) {
 	case 0: // defaulted
 	case 1:
@@ -593,6 +662,9 @@ func nsDoc(name string, labels map[string]string) Doc {
 // default. Anything outside those rules is a fault that a scenario injects on purpose.
 func genWorld(r *rng, f Features) *World {
 	w := &World{HasNsObj: map[string]bool{}}
+	if f.Exprs {
+		f.pool = &[]metav1.LabelSelector{}
+	}
 	nss := append([]string{}, nsNames[:f.NNamespaces]...)
 	if f.DefaultNS {
 		nss[len(nss)-1] = "default"
